@@ -26,12 +26,12 @@ MAX_TIMEOUTS = {"quick": 1, "thorough": 20}
 REQUIRED = {"outputs_checked": 150, "atoms_checked": 3000, "box_from_density": 20, "box_from_option": 30,
             "box_from_structure": 30, "with_input_structure": 30, "with_meta_structure": 8, "with_build_res": 8,
             "with_start": 10, "with_grid": 8, "virtual_site_systems": 20, "zero_mass_atoms": 20,
-            "injected_failed_attempts": 30, "injected_step_failures": 60}
+            "injected_failed_attempts": 30, "injected_step_failures": 60, "rings_with_ligands": 30}
 
 
 def plan(tier, seed):
     n = 520 if tier == "quick" else 6000
-    return [["opt", i] for i in range(n)] + [["faults", i] for i in range(n // 2)]
+    return [["opt", i] for i in range(n)] + [["faults", i] for i in range(n // 2)] + [["cyclig", i] for i in range(n // 10)]
 
 
 def setup():
@@ -236,15 +236,36 @@ def check_output(res, sysd, info, kw, outp, key_suffix=""):
 
 def run_case(cid, rng, workdir):
     res = new_result()
-    sysd = T.gen_system(rng, min_res=4 if cid[0] == "faults" else 1)
-    if rng.random() < 0.3 and T.add_mass_overrides(rng, sysd):
-        bump(res, "systems_with_per_atom_masses")
-    if rng.random() < 0.2 and T.alias_residues(rng, sysd):
-        bump(res, "systems_with_two_residues_under_one_name")
+    cyclig = None
+    if cid[0] == "cyclig":
+        # ring molecules declared cyclic that also carry a ligand (-cycles together with -lig)
+        sysd = T.gen_system(rng, max_types=1, min_res=4, max_res=7, max_count=1, shapes=("ring",), kinds=["single", "chain"])
+        host = sysd["moltypes"][0]
+        nh = rng.randint(1, 2)
+        tn = sorted(sysd["atypes"])[0]
+        sysd["residues"]["LIG"] = {"name": "LIG", "kind": "single", "atoms": [{"name": "L0", "atype": tn, "charge": 0.0, "mass": None}],
+                                   "bonds": [], "angles": [], "vs": []}
+        sysd["moltypes"].append({"name": "LG", "res": ["LIG"], "edges": [], "links": [], "shape": "lin", "resids": [1]})
+        sysd["molecules"] = [(host["name"], nh), ("LG", nh)]
+        b_ = round(rng.uniform(5.0, 7.0), 3)
+        cyclig = {"box": np.array([b_, b_, b_]), "cycles": [host["name"]], "cycle_tol": rng.choice([0.3, 0.5]), "ligands": []}
+        for h in range(nh):
+            ri = rng.randrange(1, len(host["res"]) - 1)          # not the residue the ring is closed at
+            cyclig["ligands"].append(["%s#%d-%s#%d" % (host["name"], h, host["res"][ri], host["resids"][ri]), "LG#%d" % (nh + h)])
+        bump(res, "rings_with_ligands")
+    else:
+        sysd = T.gen_system(rng, min_res=4 if cid[0] == "faults" else 1)
+        if rng.random() < 0.3 and T.add_mass_overrides(rng, sysd):
+            bump(res, "systems_with_per_atom_masses")
+        if rng.random() < 0.2 and T.alias_residues(rng, sysd):
+            bump(res, "systems_with_two_residues_under_one_name")
     text = T.render_top(sysd)
     with open(os.path.join(workdir, "s.top"), "w") as fh:
         fh.write(text)
-    if cid[0] == "faults" and rng.random() < 0.6:
+    if cyclig is not None:
+        kw = cyclig
+        info = {"mode": "cyclig", "supplied": [], "centres": [], "box_src": "option", "box": cyclig["box"].tolist()}
+    elif cid[0] == "faults" and rng.random() < 0.6:
         # supplied residues in the middle of chains, so that rewinds span residues that are not built
         kw, info = make_options(rng, sysd, workdir, res, allow=("c_res", "mc_res", "mc_res"))
     else:
